@@ -516,9 +516,9 @@ Proof.
       unfold js_step in Estep. rewrite Ebr in Estep. rewrite Hs1, Hw in Ebr.
       destruct (0 <? len (j_tb s)) eqn:Etb; inversion Estep; subst s'; clear Estep;
         constructor; cbn [j_l j_tb j_net]; try assumption; try lia.
-      * rewrite !len_app. change (len [0]) with 1. lia.
+      * rewrite len_app, len_cons. lia.
       * destruct HJ1 as [_ Htb1 _ _ _ _]. cbn [j_tb] in Htb1. rewrite <- Htb1, <- Hnet.
-        rewrite !len_app. change (len [0]) with 1. lia.
+        rewrite len_app, len_cons. lia.
       * rewrite len_app. lia.
       * destruct HJ1 as [_ Htb1 _ _ _ _]. cbn [j_tb] in Htb1. rewrite <- Htb1, <- Hnet.
         rewrite len_app. lia.
@@ -587,3 +587,1072 @@ Proof.
       repeat (split; [assumption|]).
       rewrite H5, concat_app. cbn [List.concat]. rewrite app_nil_r, <- !app_assoc. reflexivity.
 Qed.
+
+Lemma len_join_with_sep (s1 s2 : bytes) (l : list bytes) :
+  len s1 = len s2 -> len (join_with s1 l) = len (join_with s2 l).
+Proof.
+  intros Hs. induction l as [|x l IH]; [reflexivity|]. destruct l as [|y l]; [reflexivity|].
+  rewrite !join_with_cons2, !len_app, IH, Hs. reflexivity.
+Qed.
+
+Lemma join_sink_of_inv vs R ms closed cur s :
+  js_loop (ms_prev ms) (js_init vs R ms [0]) vs = (true, s) ->
+  JInv [0] closed cur s -> cur <> [] -> rows_ok cur = true ->
+  N.of_nat (S (List.length closed)) < 65536 ->
+  join_sink vs R ms [0]
+  = (Ok (flat closed ++ pjoin cur, N.of_nat (S (List.length closed))),
+     map (cursor_at closed) (seq 0 (S (List.length closed)))).
+Proof.
+  intros Eloop [Hrb Htb Hcrs Hcnt Hcur Hpg] Hcne Hokc Hn.
+  unfold join_sink. rewrite Eloop.
+  assert (Htbne : pjoin cur <> []) by (apply pjoin_nonempty; assumption).
+  assert (Htl : 0 < len (j_tb s)).
+  { rewrite Htb. destruct (pjoin cur); [congruence|]. rewrite len_cons. lia. }
+  destruct (0 <? len (j_tb s)) eqn:E; [|lia]. clear E.
+  destruct (pjoin_last_not_lf cur Hcne Hokc) as [b [x [Eb Hx]]].
+  f_equal; [f_equal; f_equal|].
+  - rewrite Hrb, Htb, Eb, app_assoc. apply trim_right_lf_id. exact Hx.
+  - rewrite Hcnt. unfold w16. rewrite N.add_mod_idemp_l by lia. rewrite N.mod_small by lia. lia.
+  - rewrite Hcrs. cbn [seq map app]. f_equal.
+Qed.
+
+(* bytes taken by the browse entries on page i of n: Menu.Sizes' numbers plus one LF each *)
+Definition nav (ms : N * N * N * N) (i n : N) : N :=
+  (if i + 1 <? n then ms_next ms + 1 else 0) + (if 0 <? i then ms_prev ms + 1 else 0).
+
+Lemma join_sink_budget vs R ms :
+  vs <> [] -> rows_ok vs = true -> rows_size vs < 4294967296 -> len vs < 65536 ->
+  budget_ok vs R ms = true ->
+  exists r n cs (pages : list (list bytes)),
+    join_sink vs R ms [0] = (Ok (r, n), cs)
+    /\ List.concat pages = vs /\ len pages = n
+    /\ (forall i p, nth_error pages i = Some p ->
+          sink_page r cs (N.of_nat i) = Ok (join_with [nl] p)
+          /\ len (join_with [nl] p) + nav ms (N.of_nat i) n <= R).
+Proof.
+  intros Hvs Hok Hsz Hlen Hb. unfold budget_ok in Hb. apply andb_true_iff in Hb as [Hb HR].
+  set (nx := ms_next ms) in *. set (pv := ms_prev ms) in *.
+  set (multi := 1 <? len vs).
+  assert (HJ0 : JInv [0] [] [] (js_init vs R ms [0])).
+  { constructor; cbn; try reflexivity; try congruence. constructor. }
+  assert (Hs32 : forall a b, b <= a -> a < 4294967296 -> sub32 a b = a - b) by (intros; apply sub32_small; assumption).
+  assert (HL0 : LInv R nx pv multi [] [] (js_init vs R ms [0]) vs).
+  { constructor; cbn [List.length page_bound js_init j_l j_tb j_net pjoin join_with]; try reflexivity.
+    - unfold net0, multi. rewrite (Hs32 R 1) by lia. destruct (1 <? len vs); [|lia].
+      fold nx. rewrite w32_small by lia. apply Hs32; lia.
+    - change (len []) with 0. lia.
+    - intros k p Hk. destruct k; discriminate.
+    - unfold len in Hlen. lia. }
+  assert (Hbs : Forall (fun v => nx + pv + 4 + len v <= R) vs).
+  { apply Forall_forall. intros v Hv. pose proof (maxlen_In v vs Hv). lia. }
+  destruct (js_loop_linv R nx pv multi [0] vs [] [] _ HJ0 HL0 eq_refl Hok ltac:(lia) Hbs (Forall_nil _))
+    as [s [closed [cur [Eloop [HJ [HL [Hokc [Hokcl Hcat]]]]]]]].
+  cbn [List.concat app] in Hcat.
+  pose proof HJ as [_ _ _ _ Hcur Hpg].
+  assert (Hcne : cur <> []).
+  { destruct closed as [|q closed]; [|apply Hcur; discriminate]. cbn in Hcat. congruence. }
+  destruct HL as [_ _ Hcb Hclb Hc]. cbn [List.length] in Hc.
+  set (pages := closed ++ [cur]).
+  assert (Hpne : Forall (fun q => q <> []) pages).
+  { apply Forall_app. split; [exact Hpg|]. constructor; [exact Hcne|constructor]. }
+  assert (Hpok : Forall (fun q => rows_ok q = true) pages).
+  { apply Forall_app. split; [exact Hokcl|]. constructor; [exact Hokc|constructor]. }
+  assert (Hcatp : List.concat pages = vs).
+  { unfold pages. rewrite concat_app. cbn [List.concat]. rewrite app_nil_r. exact Hcat. }
+  assert (Hnpages : (List.length pages <= List.length vs)%nat).
+  { rewrite <- Hcatp. clear - Hpne. induction pages as [|q pages IH]; [cbn; lia|].
+    inversion Hpne as [|? ? Hq Hr]; subst. cbn [List.concat List.length]. rewrite app_length.
+    specialize (IH Hr). destruct q; [congruence|]. cbn [List.length]. lia. }
+  assert (Hn : N.of_nat (S (List.length closed)) < 65536).
+  { unfold pages in Hnpages. rewrite app_length in Hnpages. cbn [List.length] in Hnpages. unfold len in Hlen. lia. }
+  assert (Hrlen : len (flat closed ++ pjoin cur) < 4294967296).
+  { rewrite len_app, len_flat by exact Hpg.
+    pose proof (len_pjoin cur Hcne). rewrite <- Hcat, rows_size_app in Hsz. lia. }
+  exists (flat closed ++ pjoin cur), (N.of_nat (S (List.length closed))),
+         (map (cursor_at closed) (seq 0 (S (List.length closed)))), pages.
+  split; [apply (join_sink_of_inv vs R ms closed cur s); assumption|].
+  split; [exact Hcatp|].
+  split; [unfold pages, len; rewrite app_length; cbn [List.length]; lia|].
+  intros i p Hnth. split; [apply sink_page_of_pages; assumption|].
+  rewrite (len_join_with_sep [nl] [0]) by reflexivity. fold (pjoin p).
+  (* a closed page exists only if there are at least two rows *)
+  assert (Hmulti : closed <> [] -> multi = true).
+  { intros Hc0. unfold multi. apply N.ltb_lt. rewrite <- Hcat. unfold len. rewrite app_length.
+    destruct closed as [|q closed]; [congruence|]. inversion Hpg as [|? ? Hq _]; subst.
+    cbn [List.concat]. rewrite app_length. destruct q; [congruence|]. destruct cur; [congruence|].
+    cbn [List.length]. lia. }
+  unfold nav. fold nx pv.
+  destruct (nth_error_snoc_cases closed cur i p Hnth) as [[Hlt Hk]|[-> ->]].
+  - specialize (Hclb i p Hk). assert (Hm : multi = true) by (apply Hmulti; destruct closed; [cbn in Hlt; lia|discriminate]).
+    destruct (N.of_nat i + 1 <? N.of_nat (S (List.length closed))) eqn:E1; [|lia].
+    destruct i as [|i].
+    + cbn [page_bound] in Hclb. unfold net0 in Hclb. rewrite Hm in Hclb. cbn [N.of_nat]. cbn [N.ltb N.compare]. lia.
+    + rewrite page_bound_S in Hclb. unfold net0 in Hclb. rewrite Hm in Hclb.
+      destruct (0 <? N.of_nat (S i)) eqn:E2; lia.
+  - destruct (N.of_nat (List.length closed) + 1 <? N.of_nat (S (List.length closed))) eqn:E1; [lia|].
+    destruct (List.length closed) as [|k] eqn:El.
+    + cbn [page_bound] in Hcb. unfold net0 in Hcb. cbn [N.of_nat N.ltb N.compare]. destruct multi; lia.
+    + rewrite page_bound_S in Hcb. unfold net0 in Hcb.
+      assert (Hm : multi = true) by (apply Hmulti; intros ->; discriminate). rewrite Hm in Hcb.
+      destruct (0 <? N.of_nat (S k)) eqn:E2; lia.
+Qed.
+
+(* ================================================================== the menu ===== *)
+Lemma menu_apply_page_browse m i m' :
+  b_next_avail (m_browse m) = true -> b_prev_avail (m_browse m) = true ->
+  0 < m_page_count m -> menu_apply_page m i = Ok m' ->
+  i < m_page_count m
+  /\ m_can_next m' = (i + 1 <? m_page_count m)
+  /\ m_can_prev m' = (0 <? i)
+  /\ m_items m' = m_items m
+       ++ (if i + 1 <? m_page_count m then [(b_next_sel (m_browse m), b_next_title (m_browse m))] else [])
+       ++ (if 0 <? i then [(b_prev_sel (m_browse m), b_prev_title (m_browse m))] else [])
+  /\ m_page_count m' = m_page_count m /\ m_browse m' = m_browse m /\ m_sep m' = m_sep m
+  /\ m_keep m' = m_keep m /\ m_has_rs m' = m_has_rs m /\ m_sink m' = m_sink m.
+Proof.
+  intros Hn Hp Hpc. unfold menu_apply_page.
+  destruct (m_page_count m =? 0) eqn:E0; [lia|].
+  destruct (m_page_count m <=? i) eqn:E1; [discriminate|].
+  intros E. inversion E; subst m'; clear E.
+  unfold menu_reset_flags, set_can, set_items. cbn [m_items m_browse m_page_count m_can_next m_can_prev m_sink m_keep m_sep m_has_rs].
+  rewrite Hn, Hp.
+  assert (Ha : (i =? m_page_count m - 1) = negb (i + 1 <? m_page_count m)) by lia.
+  assert (Hb : (i =? 0) = negb (0 <? i)) by lia.
+  rewrite Ha, Hb.
+  destruct (i + 1 <? m_page_count m), (0 <? i); cbn [negb]; repeat split; try reflexivity; lia.
+Qed.
+
+(* past the last page the menu refuses: BrowseError, or the plain error of a non-paged menu *)
+Lemma menu_render_past_end gm m i :
+  m_page_count m <= i -> 0 < i ->
+  fst (menu_render_st gm m i) = Err EBrowse \/ fst (menu_render_st gm m i) = Err EGen.
+Proof.
+  intros H1 H2. unfold menu_render_st, menu_apply_page.
+  destruct (m_page_count m =? 0) eqn:E0.
+  - destruct (0 <? i) eqn:E; [|lia]. right. reflexivity.
+  - destruct (m_page_count m <=? i) eqn:E1; [|lia]. left. reflexivity.
+Qed.
+
+(* ================================================================= the sizer ===== *)
+Lemma sink_page_no_panic v crs idx : is_panic (sink_page v crs idx) = false.
+Proof.
+  unfold sink_page. destruct (w16 (len crs) <=? idx) eqn:E; [reflexivity|].
+  destruct (nth_error crs (N.to_nat idx)) as [c|] eqn:En.
+  - destruct (w32 (len v) <? c); reflexivity.
+  - exfalso. apply nth_error_None in En.
+    assert (w16 (len crs) <= len crs) by (unfold w16; apply N.mod_le; lia).
+    unfold len in *. lia.
+Qed.
+
+Lemma sizer_check_fits z s r : 0 < z_out z -> len s < 4294967296 -> sizer_check z s = (r, true) -> len s <= z_out z.
+Proof.
+  intros Hz Hs. unfold sizer_check. rewrite w32_small by exact Hs.
+  destruct (0 <? z_out z) eqn:E; [|lia].
+  destruct (z_out z <? len s) eqn:E2; intros H; inversion H. lia.
+Qed.
+
+(* ================================================================== the page ===== *)
+Definition page_out (pg : page) : option N := option_map z_out (p_sizer pg).
+
+Lemma inner_sizer gt gm pg sym vals idx :
+  p_sizer (snd (page_render_inner gt gm pg sym vals idx)) = p_sizer pg.
+Proof.
+  unfold page_render_inner. destruct (render_template gt pg sym vals idx); try reflexivity.
+  destruct (p_menu pg) as [m|].
+  - destruct (menu_render_st gm m idx) as [[ms|e|p] m']; try reflexivity.
+    change (p_sizer (page_set_menu pg (Some m'))) with (p_sizer pg).
+    destruct (p_sizer pg) as [z|] eqn:Ez; [|cbn; exact Ez].
+    destruct (snd (sizer_check z (a ++ (if 0 <? len ms then nl :: ms else [])))); cbn; exact Ez.
+  - destruct (p_sizer pg) as [z|] eqn:Ez; [|cbn; exact Ez].
+    destruct (snd (sizer_check z a)); cbn; exact Ez.
+Qed.
+
+(* the obligation of C01: nothing is appended after the final Sizer.Check *)
+Lemma inner_fits gt gm pg sym vals idx out pg' z :
+  p_sizer pg = Some z -> 0 < z_out z -> len out < 4294967296 ->
+  page_render_inner gt gm pg sym vals idx = (Ok out, pg') -> len out <= z_out z.
+Proof.
+  intros Hz Hout Hlen. unfold page_render_inner.
+  destruct (render_template gt pg sym vals idx) as [s|e|p]; try discriminate.
+  destruct (p_menu pg) as [m|].
+  - destruct (menu_render_st gm m idx) as [[ms|e|p] m']; try discriminate.
+    cbn [p_sizer page_set_menu]. rewrite Hz.
+    destruct (sizer_check z (s ++ (if 0 <? len ms then nl :: ms else []))) as [r ok] eqn:Ec.
+    cbn [snd]. destruct ok; [|discriminate]. intros E. inversion E; subst.
+    eapply sizer_check_fits; eassumption.
+  - rewrite Hz. destruct (sizer_check z s) as [r ok] eqn:Ec. cbn [snd].
+    destruct ok; [|discriminate]. intros E. inversion E; subst.
+    eapply sizer_check_fits; eassumption.
+Qed.
+
+Lemma prep_write_out aliased pg vals k v : page_out (snd (prep_write aliased pg vals k v)) = page_out pg.
+Proof. unfold prep_write. destruct aliased; reflexivity. Qed.
+
+Lemma page_out_set_sizer pg (f : sizer -> sizer) :
+  (forall z, z_out (f z) = z_out z) -> page_out (page_set_sizer pg (option_map f (p_sizer pg))) = page_out pg.
+Proof. intros H. unfold page_out. cbn [p_sizer page_set_sizer]. destruct (p_sizer pg); cbn; [rewrite H|]; reflexivity. Qed.
+
+Lemma inner_out gt gm pg sym vals idx : page_out (snd (page_render_inner gt gm pg sym vals idx)) = page_out pg.
+Proof. unfold page_out. rewrite inner_sizer. reflexivity. Qed.
+
+(* prepare never changes the output size of the sizer *)
+Lemma prepare_out c gt gm pg sym idx : page_out (snd (page_prepare c gt gm pg sym idx)) = page_out pg.
+Proof.
+  unfold page_prepare.
+  destruct (p_sizer pg) as [z0|] eqn:Ez0; [|reflexivity].
+  destruct (page_split c (p_map pg)) as [[[nsv0 sink0] svs0]|e|p]; try reflexivity.
+  set (aliased := match sink0 with [] => true | _ => false end).
+  match goal with |- page_out (snd (match ?S with _ => _ end)) = _ => set (step1 := S) end.
+  assert (Hs1 : page_out (snd step1) = page_out pg).
+  { unfold step1. destruct (p_menu pg) as [m|]; [|reflexivity].
+    destruct (m_sink m); [|reflexivity].
+    destruct (negb aliased); [reflexivity|].
+    destruct (menu_render_st gm (menu_with_pages (menu_with_dispose m)) 0) as [[s|e|p] m2]; try reflexivity.
+    match goal with |- page_out (snd (let '(a, b) := ?P in _)) = _ => destruct P as [nsv1 pg3] eqn:Ew end.
+    cbn [snd]. replace pg3 with (snd (prep_write aliased
+      (page_set_sizer (page_set_extra (page_set_menu pg (Some m2)) menu_sink_extra)
+        (option_map (fun z => sizer_set_sink z menu_sink_key)
+           (p_sizer (page_set_extra (page_set_menu pg (Some m2)) menu_sink_extra)))) nsv0 menu_sink_key []))
+      by (rewrite Ew; reflexivity).
+    rewrite prep_write_out. rewrite page_out_set_sizer by reflexivity. reflexivity. }
+  destruct step1 as [[[[nsv sink] svs]|e|p] pg1]; cbn [snd] in Hs1; try exact Hs1.
+  set (pg2 := page_set_sizer pg1 (option_map (fun z => sizer_add_cursor z 0) (p_sizer pg1))).
+  assert (Hp2 : page_out pg2 = page_out pg).
+  { unfold pg2. rewrite page_out_set_sizer by reflexivity. exact Hs1. }
+  destruct (page_render_inner gt gm pg2 sym nsv 0) as [[s|e|p] pg3] eqn:Ei;
+    pose proof (inner_out gt gm pg2 sym nsv 0) as Hi; rewrite Ei in Hi; cbn [snd] in Hi;
+    try (cbn [snd]; rewrite Hi; exact Hp2).
+  destruct (p_sizer pg3) as [z|] eqn:Ez3; [|cbn [snd]; rewrite Hi; exact Hp2].
+  destruct (sizer_check z s) as [remaining ok].
+  destruct (negb ok); [cbn [snd]; rewrite Hi; exact Hp2|].
+  destruct (match p_menu pg3 with Some m => menu_sizes m | None => Ok ms_zero end) as [ms|e|p];
+    try (cbn [snd]; rewrite Hi; exact Hp2).
+  destruct (join_sink svs remaining ms (z_crsrs z)) as [jr crs'].
+  assert (Hp4 : page_out (page_set_sizer pg3 (Some (sizer_set_crsrs z crs'))) = page_out pg).
+  { rewrite <- Hp2, <- Hi. unfold page_out. cbn [p_sizer page_set_sizer option_map]. rewrite Ez3. reflexivity. }
+  destruct jr as [[sink_string count]|e|p]; try (cbn [snd]; exact Hp4).
+  match goal with |- page_out (snd (let '(a, b) := ?P in _)) = _ => destruct P as [nsv' pg5] eqn:Ew end.
+  cbn [snd]. unfold page_out. cbn [p_sizer page_set_menu]. fold (page_out pg5).
+  replace pg5 with (snd (prep_write aliased (page_set_sizer pg3 (Some (sizer_set_crsrs z crs'))) nsv sink sink_string))
+    by (rewrite Ew; reflexivity).
+  rewrite prep_write_out. exact Hp4.
+Qed.
+
+Lemma page_render_fits c gt gm pg sym idx out pg' z :
+  p_sizer pg = Some z -> 0 < z_out z -> len out < 4294967296 ->
+  page_render c gt gm pg sym idx = (Ok out, pg') -> len out <= z_out z.
+Proof.
+  intros Hz Hout Hlen. unfold page_render.
+  destruct (page_prepare c gt gm pg sym idx) as [[vals|e|p] pg1] eqn:Ep; try discriminate.
+  pose proof (prepare_out c gt gm pg sym idx) as Ho. rewrite Ep in Ho. cbn [snd] in Ho.
+  unfold page_out in Ho. rewrite Hz in Ho. cbn [option_map] in Ho.
+  destruct (p_sizer pg1) as [z1|] eqn:Ez1; [|discriminate]. cbn [option_map] in Ho. injection Ho as Hzz.
+  intros Hr. assert (len out <= z_out z1); [|lia]. eapply inner_fits; [exact Ez1|lia|exact Hlen|exact Hr].
+Qed.
+
+(* ---- what an Ok page is made of ---------------------------------------------------- *)
+Definition opt_menu (mtext : bytes) : bytes := if 0 <? len mtext then nl :: mtext else [].
+
+Lemma inner_shape gt gm pg sym vals idx out pg' :
+  page_render_inner gt gm pg sym vals idx = (Ok out, pg') ->
+  exists src items vals' body mtext,
+    gt sym = Ok src
+    /\ tpl_parse (tpl_source (p_err pg) (p_extra pg) src) = Some items
+    /\ match p_sizer pg with
+       | Some z => sizer_get_at z vals idx
+       | None => if 0 <? idx then Err EGen else Ok vals
+       end = Ok vals'
+    /\ tpl_exec items vals' = Ok body
+    /\ out = body ++ opt_menu mtext
+    /\ match p_menu pg with
+       | Some m => fst (menu_render_st gm m idx) = Ok mtext
+       | None => mtext = []
+       end.
+Proof.
+  unfold page_render_inner.
+  destruct (render_template gt pg sym vals idx) as [s|e|p] eqn:Et; try discriminate.
+  unfold render_template in Et.
+  destruct (gt sym) as [src|e|p] eqn:Eg; cbn [obind] in Et; try discriminate.
+  match type of Et with obind ?G _ = _ => destruct G as [vals'|e|p] eqn:Ev end; cbn [obind] in Et; try discriminate.
+  destruct (tpl_parse (tpl_source (p_err pg) (p_extra pg) src)) as [items|] eqn:Ep; [|discriminate].
+  intros H. exists src, items, vals', s.
+  destruct (p_menu pg) as [m|].
+  - destruct (menu_render_st gm m idx) as [[ms|e|p] m'] eqn:Em; try discriminate.
+    exists ms. cbn [fst].
+    change (p_sizer (page_set_menu pg (Some m'))) with (p_sizer pg) in H.
+    assert (Ho : out = s ++ opt_menu ms).
+    { unfold opt_menu. destruct (p_sizer pg) as [z|].
+      - destruct (snd (sizer_check z (s ++ (if 0 <? len ms then nl :: ms else [])))); inversion H; reflexivity.
+      - inversion H; reflexivity. }
+    repeat (split; [assumption || reflexivity|]). reflexivity.
+  - exists []. assert (Ho : out = s).
+    { destruct (p_sizer pg) as [z|].
+      - destruct (snd (sizer_check z s)); inversion H; reflexivity.
+      - inversion H; reflexivity. }
+    unfold opt_menu. cbn. rewrite app_nil_r.
+    repeat (split; [assumption || reflexivity|]). reflexivity.
+Qed.
+
+(* ---- alist facts ------------------------------------------------------------------- *)
+Lemma alookup_aset_same {V} k (v : V) l : alookup k (aset k v l) = Some v.
+Proof.
+  induction l as [|[k' v'] l IH]; cbn [aset alookup].
+  - rewrite bytes_eqb_refl. reflexivity.
+  - destruct (bytes_eqb k k') eqn:E; cbn [alookup].
+    + rewrite bytes_eqb_refl. reflexivity.
+    + rewrite E. exact IH.
+Qed.
+
+Lemma alookup_aset_other {V} k k2 (v : V) l : k2 <> k -> alookup k2 (aset k v l) = alookup k2 l.
+Proof.
+  intros Hne. induction l as [|[k' v'] l IH]; cbn [aset alookup].
+  - destruct (bytes_eqb k2 k) eqn:E; [apply bytes_eqb_eq in E; contradiction|reflexivity].
+  - destruct (bytes_eqb k k') eqn:E; cbn [alookup].
+    + apply bytes_eqb_eq in E. subst k'.
+      destruct (bytes_eqb k2 k) eqn:E2; [apply bytes_eqb_eq in E2; contradiction|reflexivity].
+    + destruct (bytes_eqb k2 k'); [reflexivity|exact IH].
+Qed.
+
+Lemma alookup_app_none {V} k (a b : list (bytes * V)) : alookup k a = None -> alookup k (a ++ b) = alookup k b.
+Proof.
+  induction a as [|[k' v'] a IH]; [reflexivity|]. cbn [alookup app].
+  destruct (bytes_eqb k k'); [discriminate|exact IH].
+Qed.
+
+Lemma alookup_app_some {V} k (a b : list (bytes * V)) v : alookup k a = Some v -> alookup k (a ++ b) = Some v.
+Proof.
+  induction a as [|[k' v'] a IH]; [discriminate|]. cbn [alookup app].
+  destruct (bytes_eqb k k'); [auto|exact IH].
+Qed.
+
+(* GetAt leaves every symbol but the sink alone *)
+Lemma get_at_loop_other sink crs idx vals vals' k :
+  get_at_loop sink crs idx vals = Ok vals' -> k <> sink -> alookup k vals' = alookup k vals.
+Proof.
+  revert vals'. induction vals as [|[k' v'] vals IH]; intros vals' H Hne.
+  - cbn in H. inversion H. reflexivity.
+  - cbn [get_at_loop] in H. destruct (bytes_eqb sink k') eqn:E.
+    + apply bytes_eqb_eq in E. subst k'.
+      destruct (sink_page v' crs idx); cbn [obind] in H; try discriminate.
+      destruct (get_at_loop sink crs idx vals) as [r'|e|p]; cbn [obind] in H; try discriminate.
+      inversion H; subst vals'. cbn [alookup].
+      destruct (bytes_eqb k sink) eqn:E2; [apply bytes_eqb_eq in E2; contradiction|].
+      apply IH; [reflexivity|exact Hne].
+    + destruct (get_at_loop sink crs idx vals) as [r'|e|p]; cbn [obind] in H; try discriminate.
+      inversion H; subst vals'. cbn [alookup]. destruct (bytes_eqb k k'); [reflexivity|].
+      apply IH; [reflexivity|exact Hne].
+Qed.
+
+Lemma sizer_get_at_other z vals idx vals' k :
+  sizer_get_at z vals idx = Ok vals' -> k <> z_sink z -> alookup k vals' = alookup k vals.
+Proof.
+  unfold sizer_get_at. destruct (z_sink z) eqn:Es.
+  - intros H _. inversion H. reflexivity.
+  - intros H Hne. eapply get_at_loop_other; eassumption.
+Qed.
+
+(* split blanks exactly the zero-size symbols; its sink is one of them (or none) *)
+Lemma split_loop_spec c vals : forall acc sink svs acc' sink' svs',
+  page_split_loop c vals acc sink svs = Ok (acc', sink', svs') ->
+  (sink' = sink \/ cache_reserved c sink' = Ok 0)
+  /\ (forall k, cache_reserved c k <> Ok 0 ->
+        alookup k acc' = match alookup k acc with Some v => Some v | None => alookup k vals end).
+Proof.
+  induction vals as [|[k0 v0] vals IH]; intros acc sink svs acc' sink' svs' H.
+  - cbn in H. inversion H; subst. split; [left; reflexivity|]. intros k _. destruct (alookup k acc'); reflexivity.
+  - cbn [page_split_loop] in H. destruct (cache_reserved c k0) as [sz|e|p] eqn:Er; try discriminate.
+    destruct (sz =? 0) eqn:Ez.
+    + apply N.eqb_eq in Ez. subst sz.
+      destruct (IH _ _ _ _ _ _ H) as [Hs Hl]. split.
+      * destruct Hs as [->|Hs]; [right; exact Er|right; exact Hs].
+      * intros k Hk. rewrite Hl by exact Hk. cbn [alookup].
+        destruct (bytes_eqb k k0) eqn:E.
+        -- apply bytes_eqb_eq in E. subst k0. contradiction.
+        -- destruct (alookup k acc) eqn:Ea.
+           ++ rewrite (alookup_app_some k acc _ _ Ea). reflexivity.
+           ++ rewrite alookup_app_none by exact Ea. cbn [alookup]. rewrite E. reflexivity.
+    + destruct (IH _ _ _ _ _ _ H) as [Hs Hl]. split; [exact Hs|].
+      intros k Hk. rewrite Hl by exact Hk. cbn [alookup].
+      destruct (alookup k acc) eqn:Ea.
+      * rewrite (alookup_app_some k acc _ _ Ea). reflexivity.
+      * rewrite alookup_app_none by exact Ea. cbn [alookup].
+        destruct (bytes_eqb k k0); reflexivity.
+Qed.
+
+Lemma page_split_spec c vals nsv sink svs :
+  page_split c vals = Ok (nsv, sink, svs) ->
+  (sink = [] \/ cache_reserved c sink = Ok 0)
+  /\ (forall k, cache_reserved c k <> Ok 0 -> alookup k nsv = alookup k vals).
+Proof.
+  unfold page_split. destruct (page_split_loop c vals [] [] []) as [[[a s] v]|e|p] eqn:E; try discriminate.
+  destruct (split_loop_spec c vals _ _ _ _ _ _ E) as [Hs Hl].
+  destruct s as [|x s].
+  - intros H. inversion H; subst. split; [left; reflexivity|]. reflexivity.
+  - intros H. inversion H; subst. split.
+    + destruct Hs as [Hs|Hs]; [discriminate|right; exact Hs].
+    + intros k Hk. rewrite Hl by exact Hk. reflexivity.
+Qed.
+
+(* everything Menu.Render leaves alone; with keep = true the items are restored as well *)
+Definition menu_static_eq (m m' : menu) : Prop :=
+  m_browse m' = m_browse m /\ m_sep m' = m_sep m /\ m_keep m' = m_keep m
+  /\ m_has_rs m' = m_has_rs m /\ m_sink m' = m_sink m /\ m_page_count m' = m_page_count m.
+
+Lemma menu_apply_page_static m idx m1 : menu_apply_page m idx = Ok m1 -> menu_static_eq m m1.
+Proof.
+  unfold menu_apply_page. destruct (m_page_count m =? 0).
+  - destruct (0 <? idx); [discriminate|]. intros H. inversion H; subst. repeat split.
+  - destruct (m_page_count m <=? idx); [discriminate|]. intros H. inversion H; subst. repeat split.
+Qed.
+
+Lemma menu_render_st_static gm m idx txt m' :
+  menu_render_st gm m idx = (Ok txt, m') ->
+  menu_static_eq m m' /\ (m_keep m = true -> m_items m' = m_items m).
+Proof.
+  unfold menu_render_st. destruct (menu_apply_page m idx) as [m1|e|p] eqn:Ea; try discriminate.
+  pose proof (menu_apply_page_static m idx m1 Ea) as [H1 [H2 [H3 [H4 [H5 H6]]]]].
+  destruct (menu_loop (if m_has_rs m1 then gm else fun t => Ok t) (m_sep m1) (m_items m1) []) as [[r|e|p] rest];
+    try discriminate.
+  intros H. inversion H; subst. split.
+  - repeat split; cbn [set_items m_browse m_sep m_keep m_has_rs m_sink m_page_count]; assumption.
+  - intros Hk. cbn [set_items m_items]. rewrite H3, Hk. reflexivity.
+Qed.
+
+Lemma inner_err_extra gt gm pg sym vals idx :
+  let pg' := snd (page_render_inner gt gm pg sym vals idx) in
+  p_err pg' = p_err pg /\ p_extra pg' = p_extra pg /\ p_map pg' = p_map pg /\ p_sizer pg' = p_sizer pg.
+Proof.
+  cbn zeta. split; [|split; [|split; [|apply inner_sizer]]];
+  unfold page_render_inner; destruct (render_template gt pg sym vals idx); try reflexivity;
+  (destruct (p_menu pg) as [m|];
+   [ destruct (menu_render_st gm m idx) as [[ms|e|p] m']; try reflexivity;
+     change (p_sizer (page_set_menu pg (Some m'))) with (p_sizer pg);
+     destruct (p_sizer pg) as [z|]; [|reflexivity];
+     destruct (snd (sizer_check z (a ++ (if 0 <? len ms then nl :: ms else [])))); reflexivity
+   | destruct (p_sizer pg) as [z|]; [|reflexivity];
+     destruct (snd (sizer_check z a)); reflexivity ]).
+Qed.
+
+(* What a successful prepare hands to the final render. *)
+Lemma prepare_spec c gt gm pg sym idx vals pg' z0 :
+  p_sizer pg = Some z0 ->
+  page_prepare c gt gm pg sym idx = (Ok vals, pg') ->
+  (* every symbol that is not a sink keeps its full mapped value *)
+  (forall k, k <> [] -> k <> menu_sink_key -> cache_reserved c k <> Ok 0 ->
+     alookup k vals = alookup k (p_map pg))
+  /\ p_err pg' = p_err pg
+  /\ (p_extra pg' = p_extra pg \/ p_extra pg' = menu_sink_extra)
+  (* the sink rows were paginated by joinSink and the result is what the value map holds *)
+  /\ exists sink svs remaining ms crs r n crs' z',
+       join_sink svs remaining ms crs = (Ok (r, n), crs')
+       /\ alookup sink vals = Some r
+       /\ p_sizer pg' = Some z' /\ z_crsrs z' = crs' /\ z_out z' = z_out z0
+       /\ (forall m', p_menu pg' = Some m' -> m_page_count m' = n)
+       /\ (p_menu pg = None <-> p_menu pg' = None).
+Proof.
+  intros Hz0. unfold page_prepare. rewrite Hz0.
+  destruct (page_split c (p_map pg)) as [[[nsv0 sink0] svs0]|e|p] eqn:Esplit; try discriminate.
+  destruct (page_split_spec c _ _ _ _ Esplit) as [Hsink0 Hnsv0].
+  set (aliased := match sink0 with [] => true | _ => false end).
+  match goal with |- (match ?S with _ => _ end) = _ -> _ => set (step1 := S) end.
+  assert (Hs1 : match step1 with
+                | (Ok (nsv, sink, svs), pg1) =>
+                  (forall k, k <> [] -> k <> menu_sink_key -> cache_reserved c k <> Ok 0 ->
+                     alookup k nsv = alookup k (p_map pg))
+                  /\ p_err pg1 = p_err pg
+                  /\ (p_extra pg1 = p_extra pg \/ p_extra pg1 = menu_sink_extra)
+                  /\ page_out pg1 = page_out pg
+                  /\ (p_menu pg = None <-> p_menu pg1 = None)
+                  /\ (sink = [] \/ sink = menu_sink_key \/ cache_reserved c sink = Ok 0)
+                | _ => True
+                end).
+  { unfold step1. destruct (p_menu pg) as [m|] eqn:Em.
+    - destruct (m_sink m).
+      + destruct (negb aliased); [exact I|].
+        destruct (menu_render_st gm (menu_with_pages (menu_with_dispose m)) 0) as [[s|e|p] m2]; try exact I.
+        unfold prep_write. destruct aliased; cbn [p_err p_extra page_set_map page_set_sizer page_set_extra page_set_menu p_menu].
+        * split; [|split; [reflexivity|split; [right; reflexivity|split; [|split; [split; intros; discriminate|right; left; reflexivity]]]]].
+          -- intros k H1 H2 H3. rewrite alookup_aset_other by exact H2. apply Hnsv0. exact H3.
+          -- unfold page_out. cbn [p_sizer page_set_map page_set_sizer page_set_extra page_set_menu]. rewrite Hz0. reflexivity.
+        * split; [|split; [reflexivity|split; [right; reflexivity|split; [|split; [split; intros; discriminate|right; left; reflexivity]]]]].
+          -- intros k H1 H2 H3. rewrite alookup_aset_other by exact H2. apply Hnsv0. exact H3.
+          -- unfold page_out. cbn [p_sizer page_set_map page_set_sizer page_set_extra page_set_menu]. rewrite Hz0. reflexivity.
+      + split; [|split; [reflexivity|split; [left; reflexivity|split; [reflexivity|split; [rewrite Em; tauto|]]]]].
+        * intros k _ _ H3. apply Hnsv0. exact H3.
+        * destruct Hsink0 as [->|H0]; [left; reflexivity|right; right; exact H0].
+    - split; [|split; [reflexivity|split; [left; reflexivity|split; [reflexivity|split; [rewrite Em; tauto|]]]]].
+      + intros k _ _ H3. apply Hnsv0. exact H3.
+      + destruct Hsink0 as [->|H0]; [left; reflexivity|right; right; exact H0]. }
+  destruct step1 as [[[[nsv sink] svs]|e|p] pg1]; try discriminate.
+  destruct Hs1 as [Hnsv [Herr1 [Hex1 [Hout1 [Hmn1 Hsk]]]]].
+  set (pg2 := page_set_sizer pg1 (option_map (fun z => sizer_add_cursor z 0) (p_sizer pg1))).
+  destruct (page_render_inner gt gm pg2 sym nsv 0) as [[s|e|p] pg3] eqn:Ei; try discriminate.
+  pose proof (inner_err_extra gt gm pg2 sym nsv 0) as Hi. rewrite Ei in Hi. cbn [snd] in Hi.
+  destruct Hi as [Hie [Hix [Him His]]].
+  destruct (p_sizer pg3) as [z|] eqn:Ez3; [|discriminate].
+  destruct (sizer_check z s) as [remaining ok].
+  destruct (negb ok); [discriminate|].
+  destruct (match p_menu pg3 with Some m => menu_sizes m | None => Ok ms_zero end) as [ms|e|p]; try discriminate.
+  destruct (join_sink svs remaining ms (z_crsrs z)) as [jr crs'] eqn:Ej.
+  destruct jr as [[r n]|e|p]; try discriminate.
+  assert (Hz : z_out z = z_out z0).
+  { assert (H : page_out pg3 = page_out pg).
+    { rewrite <- Hout1. unfold page_out. rewrite Ez3, His. unfold pg2. cbn [p_sizer page_set_sizer].
+      destruct (p_sizer pg1); reflexivity. }
+    unfold page_out in H. rewrite Ez3, Hz0 in H. cbn in H. congruence. }
+  assert (Hm3 : p_menu pg1 = None <-> p_menu pg3 = None).
+  { clear - Ei. unfold page_render_inner in Ei.
+    destruct (render_template gt pg2 sym nsv 0); try discriminate.
+    change (p_menu pg2) with (p_menu pg1) in Ei.
+    destruct (p_menu pg1) as [m|] eqn:Em1.
+    - destruct (menu_render_st gm m 0) as [[ms|e|p] m']; try discriminate.
+      change (p_sizer (page_set_menu pg2 (Some m'))) with (p_sizer pg2) in Ei.
+      destruct (p_sizer pg2) as [z|].
+      + destruct (snd (sizer_check z (a ++ (if 0 <? len ms then nl :: ms else [])))); inversion Ei; subst;
+          cbn; split; intros; discriminate.
+      + inversion Ei; subst; cbn; split; intros; discriminate.
+    - assert (Hp2 : p_menu pg2 = None) by exact Em1.
+      destruct (p_sizer pg2) as [z|].
+      + destruct (snd (sizer_check z a)); inversion Ei; subst; rewrite Hp2; tauto.
+      + inversion Ei; subst; rewrite Hp2; tauto. }
+  unfold prep_write.
+  intros H. inversion H; subst vals pg'; clear H.
+  split; [|split; [|split]].
+  - intros k H1 H2 H3. destruct aliased.
+    + rewrite alookup_aset_other; [apply Hnsv; assumption|].
+      intros ->. destruct Hsk as [Hk|[Hk|Hk]]; contradiction.
+    + rewrite alookup_aset_other; [apply Hnsv; assumption|].
+      intros ->. destruct Hsk as [Hk|[Hk|Hk]]; contradiction.
+  - destruct aliased; cbn [p_err page_set_menu page_set_map page_set_sizer]; rewrite Hie; unfold pg2; cbn; exact Herr1.
+  - destruct aliased; cbn [p_extra page_set_menu page_set_map page_set_sizer]; rewrite Hix; unfold pg2; cbn [p_extra page_set_sizer]; exact Hex1.
+  - exists sink, svs, remaining, ms, (z_crsrs z), r, n, crs', (sizer_set_crsrs z crs').
+    split; [exact Ej|]. split; [apply alookup_aset_same|].
+    split; [destruct aliased; reflexivity|]. split; [reflexivity|]. split; [exact Hz|].
+    split.
+    + intros m' Hm'. destruct aliased; cbn [p_menu page_set_menu page_set_map page_set_sizer] in Hm';
+        destruct (p_menu pg3); cbn [option_map] in Hm'; inversion Hm'; reflexivity.
+    + destruct aliased; cbn [p_menu page_set_menu page_set_map page_set_sizer];
+        destruct (p_menu pg3); cbn [option_map]; split; intros Hx; try discriminate;
+        try (apply Hmn1 in Hx; apply Hm3 in Hx; discriminate);
+        try reflexivity; try (apply Hmn1; apply Hm3; reflexivity).
+Qed.
+
+Lemma inner_menu gt gm pg sym vals idx out pg' m :
+  page_render_inner gt gm pg sym vals idx = (Ok out, pg') -> p_menu pg = Some m ->
+  exists txt m', menu_render_st gm m idx = (Ok txt, m') /\ p_menu pg' = Some m'.
+Proof.
+  unfold page_render_inner. intros H Hm. rewrite Hm in H.
+  destruct (render_template gt pg sym vals idx); try discriminate.
+  destruct (menu_render_st gm m idx) as [[ms|e|p] m'] eqn:Em; try discriminate.
+  exists ms, m'. split; [reflexivity|].
+  change (p_sizer (page_set_menu pg (Some m'))) with (p_sizer pg) in H.
+  destruct (p_sizer pg) as [z|].
+  - destruct (snd (sizer_check z (a ++ (if 0 <? len ms then nl :: ms else [])))); inversion H; reflexivity.
+  - inversion H; reflexivity.
+Qed.
+
+(* an ordinary (non-sink) menu survives prepare: same items, labels, separator; only the page
+   count is new *)
+Lemma prepare_menu c gt gm pg sym idx vals pg' z0 m :
+  p_sizer pg = Some z0 -> p_menu pg = Some m -> m_sink m = false ->
+  page_prepare c gt gm pg sym idx = (Ok vals, pg') ->
+  p_extra pg' = p_extra pg
+  /\ exists m', p_menu pg' = Some m' /\ (m_keep m = true -> m_items m' = m_items m)
+       /\ m_browse m' = m_browse m /\ m_sep m' = m_sep m /\ m_keep m' = m_keep m
+       /\ m_has_rs m' = m_has_rs m /\ m_sink m' = false.
+Proof.
+  intros Hz0 Hm Hsink. unfold page_prepare. rewrite Hz0.
+  destruct (page_split c (p_map pg)) as [[[nsv0 sink0] svs0]|e|p]; try discriminate.
+  rewrite Hm, Hsink.
+  set (aliased := match sink0 with [] => true | _ => false end).
+  set (pg2 := page_set_sizer pg (option_map (fun z => sizer_add_cursor z 0) (p_sizer pg))).
+  destruct (page_render_inner gt gm pg2 sym nsv0 0) as [[s|e|p] pg3] eqn:Ei; try discriminate.
+  pose proof (inner_err_extra gt gm pg2 sym nsv0 0) as Hi. rewrite Ei in Hi. cbn [snd] in Hi.
+  destruct Hi as [_ [Hix _]].
+  destruct (inner_menu gt gm pg2 sym nsv0 0 s pg3 m Ei Hm) as [txt [m3 [Er Hm3]]].
+  destruct (menu_render_st_static gm m 0 txt m3 Er) as [[H1 [H2 [H3 [H4 [H5 H6]]]]] Hitems].
+  destruct (p_sizer pg3) as [z|]; [|discriminate].
+  destruct (sizer_check z s) as [remaining ok].
+  destruct (negb ok); [discriminate|].
+  rewrite Hm3.
+  destruct (menu_sizes m3) as [ms|e|p]; try discriminate.
+  destruct (join_sink svs0 remaining ms (z_crsrs z)) as [jr crs'].
+  destruct jr as [[r n]|e|p]; try discriminate.
+  unfold prep_write. intros H. inversion H; subst vals pg'; clear H.
+  split.
+  - destruct aliased; cbn [p_extra page_set_menu page_set_map page_set_sizer]; rewrite Hix; reflexivity.
+  - exists (menu_with_page_count m3 n).
+    split; [destruct aliased; cbn [p_menu page_set_menu page_set_map page_set_sizer]; rewrite Hm3; reflexivity|].
+    cbn [menu_with_page_count m_items m_browse m_sep m_keep m_has_rs m_sink].
+    repeat split; try assumption. congruence.
+Qed.
+
+(* ---- the menu as text ----------------------------------------------------------------- *)
+Fixpoint menu_lines (tf : bytes -> res bytes) (sep : bytes) (items : list (bytes * bytes)) : option (list bytes) :=
+  match items with
+  | [] => Some []
+  | (sel, t) :: r =>
+    match tf t with
+    | Ok x => option_map (cons (sel ++ sep ++ x)) (menu_lines tf sep r)
+    | _ => None
+    end
+  end.
+
+Definition ltail (lines : list bytes) : bytes := List.concat (map (fun l => nl :: l) lines).
+
+Lemma join_cons_tail x l : join_with [nl] (x :: l) = x ++ ltail l.
+Proof.
+  revert x. induction l as [|y l IH]; intros x.
+  - cbn. rewrite app_nil_r. reflexivity.
+  - rewrite join_with_cons2, IH. unfold ltail. cbn [map List.concat app]. reflexivity.
+Qed.
+
+Lemma menu_loop_lines tf sep : sep <> [] -> forall items acc r rest,
+  menu_loop tf sep items acc = (Ok r, rest) ->
+  exists lines, menu_lines tf sep items = Some lines
+    /\ r = match acc with [] => join_with [nl] lines | _ => acc ++ ltail lines end.
+Proof.
+  intros Hsep. induction items as [|[sel t] items IH]; intros acc r rest H.
+  - cbn in H. inversion H; subst. exists []. split; [reflexivity|].
+    destruct r; [reflexivity|]. cbn. rewrite app_nil_r. reflexivity.
+  - cbn [menu_loop] in H. destruct (tf t) as [x|e|p] eqn:Et; try (inversion H; fail).
+    destruct (IH _ _ _ H) as [lines [Hl Hr]].
+    exists ((sel ++ sep ++ x) :: lines). split.
+    + cbn [menu_lines]. rewrite Et, Hl. reflexivity.
+    + destruct acc as [|a acc].
+      * cbn [len List.length N.of_nat N.ltb N.compare app] in Hr.
+        change (0 <? len (@nil N)) with false in Hr. cbn [app] in Hr.
+        rewrite join_cons_tail. destruct (sel ++ sep ++ x) eqn:E; [|exact Hr].
+        exfalso. apply app_eq_nil in E as [_ E]. apply app_eq_nil in E as [E _]. contradiction.
+      * assert (Hlt : (0 <? len (a :: acc)) = true) by (rewrite len_cons; lia).
+        rewrite Hlt in Hr. cbn [app] in Hr. rewrite Hr. unfold ltail. cbn [map List.concat app].
+        rewrite <- !app_assoc. cbn [app]. rewrite <- !app_assoc. reflexivity.
+Qed.
+
+Lemma menu_lines_app tf sep a b la lb :
+  menu_lines tf sep a = Some la -> menu_lines tf sep b = Some lb -> menu_lines tf sep (a ++ b) = Some (la ++ lb).
+Proof.
+  revert la. induction a as [|[sel t] a IH]; intros la Ha Hb.
+  - inversion Ha. exact Hb.
+  - cbn [menu_lines app] in *. destruct (tf t); try discriminate.
+    destruct (menu_lines tf sep a) as [l|]; [|discriminate]. inversion Ha; subst.
+    rewrite (IH l eq_refl Hb). reflexivity.
+Qed.
+
+Lemma menu_lines_app_inv tf sep a b l :
+  menu_lines tf sep (a ++ b) = Some l ->
+  exists la lb, menu_lines tf sep a = Some la /\ menu_lines tf sep b = Some lb /\ l = la ++ lb.
+Proof.
+  revert l. induction a as [|[sel t] a IH]; intros l H.
+  - exists [], l. repeat split. exact H.
+  - cbn [menu_lines app] in *. destruct (tf t); try discriminate.
+    destruct (menu_lines tf sep (a ++ b)) as [l'|] eqn:E; [|discriminate]. inversion H; subst.
+    destruct (IH l' eq_refl) as [la [lb [Ha [Hb ->]]]].
+    exists ((sel ++ sep ++ a0) :: la), lb. rewrite Ha. repeat split. exact Hb.
+Qed.
+
+Definition browse_items (b : browse) (nx pv : bool) : list (bytes * bytes) :=
+  (if nx then [(b_next_sel b, b_next_title b)] else []) ++ (if pv then [(b_prev_sel b, b_prev_title b)] else []).
+
+Definition title_for (gm : bytes -> res bytes) (m : menu) : bytes -> res bytes :=
+  if m_has_rs m then gm else fun t => Ok t.
+
+(* the text of a paged menu: the ordinary lines, then "next" iff a page follows, then
+   "previous" iff a page precedes *)
+Lemma menu_render_text gm m i txt m' :
+  b_next_avail (m_browse m) = true -> b_prev_avail (m_browse m) = true ->
+  0 < m_page_count m -> m_sep m <> [] ->
+  menu_render_st gm m i = (Ok txt, m') ->
+  i < m_page_count m
+  /\ exists lines blines,
+       menu_lines (title_for gm m) (m_sep m) (m_items m) = Some lines
+       /\ menu_lines (title_for gm m) (m_sep m)
+            (browse_items (m_browse m) (i + 1 <? m_page_count m) (0 <? i)) = Some blines
+       /\ txt = join_with [nl] (lines ++ blines).
+Proof.
+  intros Hn Hp Hpc Hsep. unfold menu_render_st.
+  destruct (menu_apply_page m i) as [m1|e|p] eqn:Ea; try discriminate.
+  destruct (menu_apply_page_browse m i m1 Hn Hp Hpc Ea) as [Hi [_ [_ [Hitems [_ [_ [Hs [_ [Hrs _]]]]]]]]].
+  destruct (menu_loop (if m_has_rs m1 then gm else fun t => Ok t) (m_sep m1) (m_items m1) []) as [[r|e|p] rest] eqn:El;
+    try discriminate.
+  intros H. inversion H; subst txt m'; clear H. split; [exact Hi|].
+  rewrite Hs, Hrs in El. fold (title_for gm m) in El.
+  destruct (menu_loop_lines (title_for gm m) (m_sep m) Hsep _ _ _ _ El) as [l [Hl Hr]].
+  rewrite Hitems in Hl. unfold browse_items.
+  destruct (menu_lines_app_inv _ _ _ _ _ Hl) as [la [lb [Ha [Hb ->]]]].
+  exists la, lb. split; [exact Ha|]. split; [exact Hb|exact Hr].
+Qed.
+
+Lemma menu_render_text0 gm m i txt m' :
+  m_page_count m = 0 -> m_sep m <> [] ->
+  menu_render_st gm m i = (Ok txt, m') ->
+  i = 0 /\ exists lines, menu_lines (title_for gm m) (m_sep m) (m_items m) = Some lines
+                         /\ txt = join_with [nl] lines.
+Proof.
+  intros Hpc Hsep. unfold menu_render_st, menu_apply_page. rewrite Hpc. cbn [N.eqb].
+  destruct (0 <? i) eqn:Ei; [discriminate|].
+  destruct (menu_loop (if m_has_rs m then gm else fun t => Ok t) (m_sep m) (m_items m) []) as [[r|e|p] rest] eqn:El;
+    try discriminate.
+  intros H. inversion H; subst txt m'; clear H. split; [lia|].
+  fold (title_for gm m) in El.
+  destruct (menu_loop_lines (title_for gm m) (m_sep m) Hsep _ _ _ _ El) as [l [Hl Hr]].
+  exists l. split; [exact Hl|exact Hr].
+Qed.
+
+(* ---- no panic in the template step ---------------------------------------------------- *)
+Lemma get_at_loop_no_panic sink crs idx vals : is_panic (get_at_loop sink crs idx vals) = false.
+Proof.
+  induction vals as [|[k v] vals IH]; [reflexivity|]. cbn [get_at_loop].
+  destruct (bytes_eqb sink k).
+  - pose proof (sink_page_no_panic v crs idx) as Hs.
+    destruct (sink_page v crs idx); cbn [obind]; try reflexivity; [|discriminate].
+    destruct (get_at_loop sink crs idx vals); cbn [obind] in *; try reflexivity. discriminate.
+  - destruct (get_at_loop sink crs idx vals); cbn [obind] in *; try reflexivity. discriminate.
+Qed.
+
+Lemma tpl_exec_no_panic items vals : is_panic (tpl_exec items vals) = false.
+Proof.
+  induction items as [|[b|n] items IH]; [reflexivity| |]; cbn [tpl_exec].
+  - destruct (tpl_exec items vals); cbn [obind] in *; try reflexivity. discriminate.
+  - destruct (alookup n vals); [|reflexivity].
+    destruct (tpl_exec items vals); cbn [obind] in *; try reflexivity. discriminate.
+Qed.
+
+Lemma render_template_no_panic gt pg sym vals idx :
+  (forall k, is_panic (gt k) = false) -> is_panic (render_template gt pg sym vals idx) = false.
+Proof.
+  intros Hgt. unfold render_template. specialize (Hgt sym).
+  destruct (gt sym) as [src|e|p]; cbn [obind]; try reflexivity; [|discriminate].
+  assert (Hv : is_panic (match p_sizer pg with
+                         | Some z => sizer_get_at z vals idx
+                         | None => if 0 <? idx then Err EGen else Ok vals end) = false).
+  { destruct (p_sizer pg) as [z|].
+    - unfold sizer_get_at. destruct (z_sink z); [reflexivity|apply get_at_loop_no_panic].
+    - destruct (0 <? idx); reflexivity. }
+  destruct (match p_sizer pg with Some z => sizer_get_at z vals idx | None => if 0 <? idx then Err EGen else Ok vals end);
+    cbn [obind]; try reflexivity; [|discriminate].
+  destruct (tpl_parse (tpl_source (p_err pg) (p_extra pg) src)); [apply tpl_exec_no_panic|reflexivity].
+Qed.
+
+(* past the end: with a menu attached (the VM always attaches one) the render is an error *)
+Lemma page_render_past_end c gt gm pg sym i vals pg1 m1 :
+  (forall k, is_panic (gt k) = false) ->
+  page_prepare c gt gm pg sym i = (Ok vals, pg1) -> p_menu pg1 = Some m1 ->
+  m_page_count m1 <= i -> 0 < i ->
+  exists e, fst (page_render c gt gm pg sym i) = Err e.
+Proof.
+  intros Hgt Hp Hm Hpc Hi. unfold page_render. rewrite Hp. unfold page_render_inner.
+  pose proof (render_template_no_panic gt pg1 sym vals i Hgt) as Hnp.
+  destruct (render_template gt pg1 sym vals i) as [s|e|p]; [|exists e; reflexivity|discriminate].
+  rewrite Hm.
+  destruct (menu_render_past_end gm m1 i Hpc Hi) as [H|H];
+    destruct (menu_render_st gm m1 i) as [[ms|e|p] m'] eqn:Er; cbn [fst] in H; try discriminate;
+    exists e; reflexivity.
+Qed.
+
+(* ---- an Ok page is the whole instantiated template followed by the whole menu ---------- *)
+Lemma page_render_shape c gt gm pg sym idx out pg' :
+  page_render c gt gm pg sym idx = (Ok out, pg') ->
+  exists src items vals' body mtext vals pg1,
+    gt sym = Ok src
+    /\ tpl_parse (tpl_source (p_err pg) (p_extra pg') src) = Some items
+    /\ tpl_exec items vals' = Ok body
+    /\ out = body ++ opt_menu mtext
+    /\ (forall k, k <> [] -> k <> menu_sink_key -> cache_reserved c k <> Ok 0 ->
+          (forall z', p_sizer pg' = Some z' -> k <> z_sink z') ->
+          alookup k vals' = alookup k (p_map pg))
+    /\ page_prepare c gt gm pg sym idx = (Ok vals, pg1)
+    /\ match p_menu pg1 with
+       | Some m1 => fst (menu_render_st gm m1 idx) = Ok mtext
+       | None => mtext = []
+       end.
+Proof.
+  unfold page_render.
+  destruct (page_prepare c gt gm pg sym idx) as [[vals|e|p] pg1] eqn:Ep; try discriminate.
+  intros Hr.
+  destruct (inner_shape gt gm pg1 sym vals idx out pg' Hr) as [src [items [vals' [body [mtext [Hg [Hp [Hv [He [Ho Hm]]]]]]]]]].
+  pose proof (inner_err_extra gt gm pg1 sym vals idx) as Hi. rewrite Hr in Hi. cbn [snd] in Hi.
+  destruct Hi as [_ [Hix [_ His]]].
+  exists src, items, vals', body, mtext, vals, pg1.
+  destruct (p_sizer pg) as [z0|] eqn:Ez0.
+  - destruct (prepare_spec c gt gm pg sym idx vals pg1 z0 Ez0 Ep) as [Hvals [Herr [_ [sink [svs [rem [ms [crs [r [n [crs' [z' [_ [_ [Hz' _]]]]]]]]]]]]]]].
+    split; [exact Hg|]. split; [rewrite Hix, <- Herr; exact Hp|]. split; [exact He|]. split; [exact Ho|].
+    split; [|split; [reflexivity|exact Hm]].
+    intros k H1 H2 H3 H4. rewrite Hz' in Hv.
+    rewrite (sizer_get_at_other z' vals idx vals' k Hv); [apply Hvals; assumption|].
+    apply H4. rewrite His. exact Hz'.
+  - unfold page_prepare in Ep. rewrite Ez0 in Ep. inversion Ep; subst vals pg1; clear Ep.
+    rewrite Ez0 in Hv.
+    split; [exact Hg|]. split; [rewrite Hix; exact Hp|]. split; [exact He|]. split; [exact Ho|].
+    split; [|split; [reflexivity|exact Hm]].
+    intros k _ _ _ _. destruct (0 <? idx); [discriminate|]. inversion Hv. reflexivity.
+Qed.
+
+(* ---- static parts and browse entries of a VM-shaped page -------------------------------- *)
+Lemma page_render_static c gt gm pg sym i out pg' z0 m :
+  p_sizer pg = Some z0 -> p_menu pg = Some m ->
+  m_sink m = false -> m_keep m = true -> m_sep m <> [] ->
+  b_next_avail (m_browse m) = true -> b_prev_avail (m_browse m) = true ->
+  page_render c gt gm pg sym i = (Ok out, pg') ->
+  exists src items vals' body lines blines n,
+    gt sym = Ok src
+    /\ tpl_parse (tpl_source (p_err pg) (p_extra pg) src) = Some items
+    /\ tpl_exec items vals' = Ok body
+    /\ (forall k, k <> [] -> k <> menu_sink_key -> cache_reserved c k <> Ok 0 ->
+          (forall z', p_sizer pg' = Some z' -> k <> z_sink z') ->
+          alookup k vals' = alookup k (p_map pg))
+    /\ menu_lines (title_for gm m) (m_sep m) (m_items m) = Some lines
+    /\ (n = 0 -> i = 0 /\ blines = [])
+    /\ (0 < n -> i < n /\
+          menu_lines (title_for gm m) (m_sep m) (browse_items (m_browse m) (i + 1 <? n) (0 <? i)) = Some blines)
+    /\ out = body ++ opt_menu (join_with [nl] (lines ++ blines)).
+Proof.
+  intros Hz0 Hm Hsink Hkeep Hsep Hn Hp Hr.
+  destruct (page_render_shape c gt gm pg sym i out pg' Hr)
+    as [src [items [vals' [body [mtext [vals [pg1 [Hg [Hparse [He [Ho [Hvals [Hprep Hmt]]]]]]]]]]]]].
+  destruct (prepare_menu c gt gm pg sym i vals pg1 z0 m Hz0 Hm Hsink Hprep)
+    as [Hex [m1 [Hm1 [Hitems [Hb [Hs [Hk [Hrs Hsk]]]]]]]].
+  assert (Hex' : p_extra pg' = p_extra pg).
+  { unfold page_render in Hr. rewrite Hprep in Hr.
+    pose proof (inner_err_extra gt gm pg1 sym vals i) as Hi. rewrite Hr in Hi. cbn [snd] in Hi.
+    destruct Hi as [_ [Hix _]]. rewrite Hix. exact Hex. }
+  rewrite Hex' in Hparse. rewrite Hm1 in Hmt.
+  destruct (menu_render_st gm m1 i) as [r m2] eqn:Er. cbn [fst] in Hmt. subst r.
+  assert (Htf : title_for gm m1 = title_for gm m) by (unfold title_for; rewrite Hrs; reflexivity).
+  specialize (Hitems Hkeep).
+  destruct (N.eq_dec (m_page_count m1) 0) as [Hpc|Hpc].
+  - destruct (menu_render_text0 gm m1 i mtext m2 Hpc ltac:(rewrite Hs; exact Hsep) Er) as [Hi0 [lines [Hl Ht]]].
+    rewrite Htf, Hs, Hitems in Hl.
+    exists src, items, vals', body, lines, [], 0.
+    repeat (split; [assumption|]). split; [intros _; split; [exact Hi0|reflexivity]|].
+    split; [intros H; lia|]. rewrite app_nil_r, <- Ht. exact Ho.
+  - destruct (menu_render_text gm m1 i mtext m2 ltac:(rewrite Hb; exact Hn) ltac:(rewrite Hb; exact Hp)
+                ltac:(lia) ltac:(rewrite Hs; exact Hsep) Er) as [Hi [lines [blines [Hl [Hbl Ht]]]]].
+    rewrite Htf, Hs, Hitems in Hl. rewrite Htf, Hs, Hb in Hbl.
+    exists src, items, vals', body, lines, blines, (m_page_count m1).
+    repeat (split; [assumption|]). split; [intros H; lia|].
+    split; [intros _; split; [exact Hi|exact Hbl]|]. rewrite <- Ht. exact Ho.
+Qed.
+
+(* ---- no Go panic site is reachable in Page.Render ------------------------------------------ *)
+Lemma menu_loop_no_panic tf sep items acc :
+  (forall k, is_panic (tf k) = false) -> is_panic (fst (menu_loop tf sep items acc)) = false.
+Proof.
+  intros Htf. revert acc. induction items as [|[sel t] items IH]; intros acc; [reflexivity|].
+  cbn [menu_loop]. specialize (Htf t). destruct (tf t); [apply IH|reflexivity|discriminate].
+Qed.
+
+Lemma menu_render_st_no_panic gm m idx :
+  (forall k, is_panic (gm k) = false) -> is_panic (fst (menu_render_st gm m idx)) = false.
+Proof.
+  intros Hgm. unfold menu_render_st.
+  destruct (menu_apply_page m idx) as [m1|e|p] eqn:Ea; try reflexivity.
+  - assert (Htf : forall k, is_panic ((if m_has_rs m1 then gm else fun t => Ok t) k) = false).
+    { intros k. destruct (m_has_rs m1); [apply Hgm|reflexivity]. }
+    pose proof (menu_loop_no_panic _ (m_sep m1) (m_items m1) [] Htf) as Hl.
+    destruct (menu_loop (if m_has_rs m1 then gm else fun t => Ok t) (m_sep m1) (m_items m1) []) as [[r|e|p] rest];
+      cbn [fst] in *; try reflexivity. discriminate.
+  - exfalso. unfold menu_apply_page in Ea.
+    destruct (m_page_count m =? 0); [destruct (0 <? idx); discriminate|].
+    destruct (m_page_count m <=? idx); discriminate.
+Qed.
+
+Lemma menu_sizes_no_panic m : is_panic (menu_sizes m) = false.
+Proof.
+  unfold menu_sizes.
+  assert (Hid : forall k : bytes, is_panic ((fun t : bytes => @Ok err bytes t) k) = false) by reflexivity.
+  match goal with |- context [menu_render_st ?g ?t0 0] =>
+    pose proof (menu_render_st_no_panic g t0 0 Hid) as H0; destruct (menu_render_st g t0 0) as [[v0|e|p] t1] end;
+    cbn [fst] in H0; try reflexivity; [|discriminate].
+  match goal with |- context [menu_render_st ?g ?t2 0] =>
+    pose proof (menu_render_st_no_panic g t2 0 Hid) as H1; destruct (menu_render_st g t2 0) as [[v1|e|p] t3] end;
+    cbn [fst] in H1; try reflexivity; [|discriminate].
+  match goal with |- context [menu_render_st ?g ?t4 1] =>
+    pose proof (menu_render_st_no_panic g t4 1 Hid) as H2; destruct (menu_render_st g t4 1) as [[v2|e|p] t5] end;
+    cbn [fst] in H2; try reflexivity. discriminate.
+Qed.
+
+Lemma cache_reserved_no_panic c k : is_panic (cache_reserved c k) = false.
+Proof. unfold cache_reserved. destruct (alookup k (c_sizes c)); reflexivity. Qed.
+
+Lemma page_split_no_panic c vals : is_panic (page_split c vals) = false.
+Proof.
+  unfold page_split.
+  assert (H : forall acc sink svs, is_panic (page_split_loop c vals acc sink svs) = false).
+  { induction vals as [|[k v] vals IH]; intros acc sink svs; [reflexivity|]. cbn [page_split_loop].
+    pose proof (cache_reserved_no_panic c k) as Hr.
+    destruct (cache_reserved c k) as [sz|e|p]; [|reflexivity|discriminate].
+    destruct (sz =? 0); apply IH. }
+  specialize (H [] [] []).
+  destruct (page_split_loop c vals [] [] []) as [[[a s] v]|e|p]; [|reflexivity|discriminate].
+  destruct s; reflexivity.
+Qed.
+
+Lemma inner_no_panic gt gm pg sym vals idx :
+  (forall k, is_panic (gt k) = false) -> (forall k, is_panic (gm k) = false) ->
+  is_panic (fst (page_render_inner gt gm pg sym vals idx)) = false.
+Proof.
+  intros Hgt Hgm. unfold page_render_inner.
+  pose proof (render_template_no_panic gt pg sym vals idx Hgt) as Ht.
+  destruct (render_template gt pg sym vals idx) as [s|e|p]; [|reflexivity|discriminate].
+  destruct (p_menu pg) as [m|].
+  - pose proof (menu_render_st_no_panic gm m idx Hgm) as Hm.
+    destruct (menu_render_st gm m idx) as [[ms|e|p] m']; cbn [fst] in Hm; [|reflexivity|discriminate].
+    change (p_sizer (page_set_menu pg (Some m'))) with (p_sizer pg).
+    destruct (p_sizer pg) as [z|]; [|reflexivity].
+    destruct (snd (sizer_check z (s ++ (if 0 <? len ms then nl :: ms else [])))); reflexivity.
+  - destruct (p_sizer pg) as [z|]; [|reflexivity]. destruct (snd (sizer_check z s)); reflexivity.
+Qed.
+
+Lemma join_sink_no_panic vs R ms crs : is_panic (fst (join_sink vs R ms crs)) = false.
+Proof. unfold join_sink. destruct (js_loop (ms_prev ms) (js_init vs R ms crs) vs) as [[|] s]; reflexivity. Qed.
+
+Lemma prepare_no_panic c gt gm pg sym idx :
+  (forall k, is_panic (gt k) = false) -> (forall k, is_panic (gm k) = false) ->
+  is_panic (fst (page_prepare c gt gm pg sym idx)) = false.
+Proof.
+  intros Hgt Hgm. unfold page_prepare.
+  destruct (p_sizer pg) as [z0|] eqn:Ez0; [|reflexivity].
+  pose proof (page_split_no_panic c (p_map pg)) as Hsp.
+  destruct (page_split c (p_map pg)) as [[[nsv0 sink0] svs0]|e|p]; [|reflexivity|discriminate].
+  set (aliased := match sink0 with [] => true | _ => false end).
+  match goal with |- is_panic (fst (match ?S with _ => _ end)) = _ => set (step1 := S) end.
+  assert (Hs1 : is_panic (fst step1) = false /\ (p_sizer (snd step1) <> None)).
+  { unfold step1. destruct (p_menu pg) as [m|]; [|split; [reflexivity|cbn; congruence]].
+    destruct (m_sink m); [|split; [reflexivity|cbn; congruence]].
+    destruct (negb aliased); [split; [reflexivity|cbn; congruence]|].
+    pose proof (menu_render_st_no_panic gm (menu_with_pages (menu_with_dispose m)) 0 Hgm) as Hm.
+    destruct (menu_render_st gm (menu_with_pages (menu_with_dispose m)) 0) as [[s|e|p] m2]; cbn [fst] in Hm;
+      [|split; [reflexivity|cbn; congruence]|discriminate].
+    unfold prep_write. destruct aliased; split; try reflexivity;
+      cbn [snd p_sizer page_set_map page_set_sizer page_set_extra page_set_menu]; rewrite Ez0; discriminate. }
+  destruct step1 as [[[[nsv sink] svs]|e|p] pg1]; cbn [fst snd] in Hs1; destruct Hs1 as [Hp1 Hz1];
+    [|reflexivity|discriminate].
+  set (pg2 := page_set_sizer pg1 (option_map (fun z => sizer_add_cursor z 0) (p_sizer pg1))).
+  pose proof (inner_no_panic gt gm pg2 sym nsv 0 Hgt Hgm) as Hin.
+  pose proof (inner_sizer gt gm pg2 sym nsv 0) as His.
+  destruct (page_render_inner gt gm pg2 sym nsv 0) as [[s|e|p] pg3]; cbn [fst snd] in *; [|reflexivity|discriminate].
+  destruct (p_sizer pg3) as [z|] eqn:Ez3.
+  - destruct (sizer_check z s) as [remaining ok]. destruct (negb ok); [reflexivity|].
+    assert (Hms : is_panic (match p_menu pg3 with Some m => menu_sizes m | None => Ok ms_zero end) = false).
+    { destruct (p_menu pg3); [apply menu_sizes_no_panic|reflexivity]. }
+    destruct (match p_menu pg3 with Some m => menu_sizes m | None => Ok ms_zero end) as [ms|e|p];
+      [|reflexivity|discriminate].
+    pose proof (join_sink_no_panic svs remaining ms (z_crsrs z)) as Hj.
+    destruct (join_sink svs remaining ms (z_crsrs z)) as [[[r n]|e|p] crs']; cbn [fst] in Hj;
+      [|reflexivity|discriminate].
+    unfold prep_write. destruct aliased; reflexivity.
+  - exfalso. unfold pg2 in His. cbn [p_sizer page_set_sizer] in His.
+    destruct (p_sizer pg1); [discriminate|congruence].
+Qed.
+
+Lemma page_render_no_panic c gt gm pg sym idx :
+  (forall k, is_panic (gt k) = false) -> (forall k, is_panic (gm k) = false) ->
+  is_panic (fst (page_render c gt gm pg sym idx)) = false.
+Proof.
+  intros Hgt Hgm. unfold page_render.
+  pose proof (prepare_no_panic c gt gm pg sym idx Hgt Hgm) as Hp.
+  destruct (page_prepare c gt gm pg sym idx) as [[vals|e|p] pg1]; cbn [fst] in Hp; [|reflexivity|discriminate].
+  apply inner_no_panic; assumption.
+Qed.
+
+(* ---- final forms used by props/C02.v ---------------------------------------------------- *)
+Definition shown_rows (r : bytes) (cs : list N) (i : N) : list bytes :=
+  match sink_page r cs i with Ok p => split_on nl p | _ => [] end.
+
+Lemma rows_ok_concat pages : rows_ok (List.concat pages) = true -> Forall (fun p => rows_ok p = true) pages.
+Proof.
+  induction pages as [|p pages IH]; intros H; [constructor|].
+  cbn [List.concat] in H. rewrite rows_ok_app in H. apply andb_true_iff in H as [H1 H2].
+  constructor; [exact H1|apply IH; exact H2].
+Qed.
+
+Lemma join_sink_partition vs remaining ms r n cs :
+  vs <> [] -> rows_ok vs = true -> rows_size vs < 4294967296 -> len vs < 65536 ->
+  join_sink vs remaining ms [0] = (Ok (r, n), cs) ->
+  (forall i, i < n -> is_ok (sink_page r cs i) = true)
+  /\ List.concat (map (fun i => shown_rows r cs (N.of_nat i)) (seq 0 (N.to_nat n))) = vs
+  /\ len cs = n
+  /\ (exists pages : list (list bytes),
+        List.concat pages = vs /\ len pages = n /\ Forall (fun p => p <> []) pages
+        /\ forall i p, nth_error pages i = Some p -> shown_rows r cs (N.of_nat i) = p)
+  /\ (forall i, n <= i -> sink_page r cs i = Err EGen).
+Proof.
+  intros Hvs Hok Hsz Hlen Hj.
+  destruct (join_sink_pages vs remaining ms r n cs Hvs Hok Hsz Hlen Hj)
+    as [pages [Hcat [Hne [Hlp [Hlc [Hpg Hpast]]]]]].
+  assert (Hpok : Forall (fun p => rows_ok p = true) pages) by (apply rows_ok_concat; rewrite Hcat; exact Hok).
+  assert (Hshown : forall i p, nth_error pages i = Some p -> shown_rows r cs (N.of_nat i) = p).
+  { intros i p Hnth. unfold shown_rows. rewrite (Hpg i p Hnth). apply split_on_join.
+    - rewrite Forall_forall in Hne. apply Hne. eapply nth_error_In. exact Hnth.
+    - rewrite Forall_forall in Hpok. apply Hpok. eapply nth_error_In. exact Hnth. }
+  assert (Hn : N.to_nat n = List.length pages) by (unfold len in Hlp; lia).
+  split; [|split; [|split; [exact Hlc|split; [|exact Hpast]]]].
+  - intros i Hi. destruct (nth_error pages (N.to_nat i)) as [p|] eqn:En.
+    + specialize (Hpg _ _ En). rewrite N2Nat.id in Hpg. rewrite Hpg. reflexivity.
+    + apply nth_error_None in En. lia.
+  - rewrite Hn. rewrite (map_seq_nth (fun i => shown_rows r cs (N.of_nat i)) pages 0); [exact Hcat|].
+    intros i p Hnth. cbn [Nat.add]. apply Hshown. exact Hnth.
+  - exists pages. repeat split; assumption.
+Qed.
+
+Fixpoint seqN (n : nat) (start : N) : list N :=
+  match n with O => [] | S k => start :: seqN k (start + 1) end.
+
+Definition rows_eqb (a b : list bytes) : bool :=
+  (List.length a =? List.length b)%nat && forallb (fun p => bytes_eqb (fst p) (snd p)) (combine a b).
+
+(* the partition statement as an executable monitor on the model *)
+Definition partition_ok (vs : list bytes) (remaining : N) (ms : N * N * N * N) : bool :=
+  match join_sink vs remaining ms [0] with
+  | (Ok (r, n), cs) =>
+    forallb (fun i => is_ok (sink_page r cs i)) (seqN (N.to_nat n) 0)
+    && rows_eqb (flat_map (shown_rows r cs) (seqN (N.to_nat n) 0)) vs
+    && (len cs =? n)
+    && is_err (sink_page r cs n)
+  | (Err _, _) => true
+  | (Panic _, _) => false
+  end.
+
+(* every page together with the browse entries it must carry fits `remaining` *)
+Definition pages_fit (vs : list bytes) (remaining : N) (ms : N * N * N * N) : bool :=
+  match join_sink vs remaining ms [0] with
+  | (Ok (r, n), cs) =>
+    forallb (fun i => match sink_page r cs i with
+                      | Ok p => len p + nav ms i n <=? remaining
+                      | _ => false end) (seqN (N.to_nat n) 0)
+  | _ => false
+  end.
+
+Lemma seqN_spec n : forall start i, In i (seqN n start) -> start <= i /\ i < start + N.of_nat n.
+Proof.
+  induction n as [|n IH]; intros start i H; [destruct H|].
+  cbn [seqN] in H. destruct H as [<-|H]; [lia|]. apply IH in H. lia.
+Qed.
+
+Lemma join_sink_pages_fit vs R ms :
+  vs <> [] -> rows_ok vs = true -> rows_size vs < 4294967296 -> len vs < 65536 ->
+  budget_ok vs R ms = true -> pages_fit vs R ms = true.
+Proof.
+  intros Hvs Hok Hsz Hlen Hb.
+  destruct (join_sink_budget vs R ms Hvs Hok Hsz Hlen Hb) as [r [n [cs [pages [Hj [Hcat [Hlp Hpg]]]]]]].
+  unfold pages_fit. rewrite Hj. apply forallb_forall. intros i Hi.
+  apply seqN_spec in Hi. rewrite N2Nat.id in Hi.
+  destruct (nth_error pages (N.to_nat i)) as [p|] eqn:En.
+  - destruct (Hpg _ _ En) as [H1 H2]. rewrite N2Nat.id in H1, H2. rewrite H1. apply N.leb_le. exact H2.
+  - apply nth_error_None in En. unfold len in Hlp. lia.
+Qed.
+
+(* ---- witness of K-C02-budget through Page.Render (replayed on the real code) ---------------- *)
+Definition wit_budget_cache : cache :=
+  match cache_add (new_cache 0) (s2b "foo") (s2b "a" ++ [nl] ++ s2b "cccc") 0 with Ok c => c | _ => new_cache 0 end.
+Definition wit_budget_tpl (k : bytes) : res bytes :=
+  if bytes_eqb k (s2b "node") then Ok (s2b "T" ++ [nl] ++ s2b "{{.foo}}") else Err EGen.
+Definition wit_budget_page_at (size : N) : page :=
+  match page_map wit_budget_cache
+          (page_with_sizer (page_with_menu (page_reset new_page)
+             (menu_with_browse (new_menu default_sep)
+                (mkBrowse true (s2b "11") (s2b "next") true (s2b "22") (s2b "back")))) (new_sizer size))
+          (s2b "foo") with
+  | Ok p => p | _ => new_page end.
+Definition wit_budget_page : page := wit_budget_page_at 13.
